@@ -207,7 +207,14 @@ class Codec:
             assert silent, "2nd tag must be BodyLength"
             return (None, len(rawmsg), None)
         else:
-            msg_length += int(value)
+            try:
+                body_length = int(value)
+            except ValueError:
+                body_length = -1
+            if body_length < 0:
+                assert silent, f"BodyLength is not a length {msg}"
+                return (None, len(rawmsg), None)
+            msg_length += body_length
 
         # message looks incomplete
         if msg_length > len(rawmsg) - valid_idx:
